@@ -163,6 +163,19 @@ def run(facts, R):
         ok = any(f["expr"][0] == "field" and f["expr"][2] == "done" and f["val"] is False for f in fs)
         R.check(ok, "done-gate", nh.path, "pull only while !done", "pull reached under %s" % texts(fs)[-3:], t.get("span"), "guarded by guard.done == false")
         R.check(not _in_cycle(nh, i), "done-gate", nh.path, "one pull per request", "pull sits in a loop", t.get("span"))
+    # a finished stream is an error, never another (empty) chunk: on the `done == true` edge only Err values are built
+    n_done_err = 0
+    for i, j, st in nh.assigns():
+        rv = st["rv"]
+        if rv.get("agg") == "adt" and rv.get("adt") == "std::result::Result":
+            fs = facts_at(nh, ns, facts, i)
+            on_done = any(f["expr"][0] == "field" and f["expr"][2] == "done" and f["val"] is True and not f.get("derived") and not f.get("merged") for f in fs)
+            if on_done:
+                n_done_err += rv["variant"] == "Err"
+                R.check(rv["variant"] == "Err", "done-gate", nh.path, "pulling a finished stream is an error",
+                        "a `next` on a stream whose session is already done yields %s: a second end marker / a clean end after a failure" % render(ns.rvalue(rv))[:80], st.get("span"),
+                        "Err(\"stream already finished\")")
+    R.floor("done-gate", n_done_err, 1, "Err values on the done edge of the next handler")
     dstores = [w for w in field_writes(facts, VS + "Session", "done") if w["body"] is nh and w["kind"] == "store"]
     R.check(len(dstores) == 1 and const_val(ns.rvalue(dstores[0]["rv"])) == 1, "done-gate", nh.path, "done := true", "stores to done: %d" % len(dstores), nh.span)
     # done is set on every path where the pull reported last or Err:  the not-setting paths are guarded by Ok((_, false))
